@@ -504,11 +504,16 @@ def edit_empty_placeholder(d, rng):
 
 
 def edit_overlap(d, rng):
-    d["paths"]["/ov/{a}"] = {"get": {"operationId": "ovA", "responses": {"200": {"description": "r"}},
-                                     "parameters": [{"name": "a", "in": "path", "required": True, "type": "string"}]}}
-    d["paths"]["/ov/{b}"] = {"get": {"operationId": "ovB", "responses": {"200": {"description": "r"}},
-                                     "parameters": [{"name": "b", "in": "path", "required": True, "type": "string"}]}}
-    return "overlapping paths /ov/{a} and /ov/{b}"
+    # the placeholder alone in its segment, after a literal prefix, before a literal suffix, two in one segment
+    shapes = [("/ov/{%s}", 1), ("/ov/v{%s}/meta", 1), ("/ov/id-{%s}", 1), ("/ov/{%s}.json", 1), ("/ov/{%s}-{%s}", 2), ("/ov/x{%s}y/{%s}", 2)]
+    shape, n = shapes[next_variant("overlap", len(shapes))]
+    made = []
+    for names in (("a", "c"), ("b", "e")):
+        path = shape % names[:n]
+        d["paths"][path] = {"get": {"operationId": "ov" + names[0].upper(), "responses": {"200": {"description": "r"}},
+                                    "parameters": [{"name": x, "in": "path", "required": True, "type": "string"} for x in names[:n]]}}
+        made.append(path)
+    return "overlapping paths %s and %s" % tuple(made)
 
 
 def edit_body_via_shared(d, rng):
